@@ -26,6 +26,7 @@ def parseAction (t : List String) : Option Action :=
   let n (s : String) := natOrZero s
   match t with
   | ["campaign", a] => some (.campaign (n a))
+  | ["sendReqVote", a] => some (.sendReqVote (n a))
   | ["updateTerm", a, b] => some (.updateTerm (n a) (n b))
   | ["grant", a, b, c, d] => some (.grant (n a) (n b) (n c) (n d))
   | ["write", a] => some (.write (n a))
@@ -73,11 +74,16 @@ structure Checker where
   actions : Nat := 0
   failed : Option String := none
 
-/-- which conjuncts of a `becomeLeader` guard hold (explains a DISABLED answer) -/
+/-- which conjuncts of a `becomeLeader` / `grant` / `sendReqVote` guard hold (explains a DISABLED
+answer; a grant is refused in particular when the request was created but never sent) -/
 def diag (cfg : Cfg) (s : State) : Action → String
   | .becomeLeader n q =>
     let nd := s.nodes n
     s!" [candidate={decide (nd.role = .candidate)} quorum={cfg.isQuorum q} ownVoteDurable={decide ((nd.vol.term, n) ∈ nd.dur.votes)} reqVotesCovered={reqVotesCovered s.msgs nd.vol.term n nd.vol.log} votesInSoup={decide (∀ v ∈ q, v = n ∨ Msg.vote nd.vol.term v n ∈ s.msgs)}]"
+  | .grant n c lt li =>
+    let nd := s.nodes n
+    s!" [candNonzero={decide (c ≠ 0)} reqInSoup={decide (Msg.reqVote nd.vol.term c lt li ∈ s.msgs)} voteFree={decide (nd.vol.vote = 0 ∨ nd.vol.vote = c)} upToDate={upToDate lt li nd.vol.log} notLeader={decide (nd.role ≠ .leader)}]"
+  | .sendReqVote n => s!" [candidate={decide ((s.nodes n).role = .candidate)}]"
   | _ => ""
 
 def Checker.act (c : Checker) (t : List String) : Checker × String :=
